@@ -13,5 +13,6 @@ INVARIANT ValidPython
 INVARIANT Constructs
 INVARIANT OneSymbolPerVariable
 INVARIANT MeaningPreserved
+INVARIANT DecAffine
 INVARIANT ReaderRoundTrip
 CHECK_DEADLOCK FALSE
